@@ -254,7 +254,16 @@ fn observe(g: &GameState, t: &mut Transcript) -> Vec<Action> {
 /// The same queries as `observe`, asked in a rotated order (each worker of the same-object scenario
 /// starts at a different query), recorded in the canonical order.
 fn ask(g: &GameState, q: usize) -> u64 {
-    match q % 7 {
+    match q % 8 {
+        7 => {
+            // expansion: every offered action is applied (also the rule-only ones) and the children are hashed
+            let mut acc = 0u64;
+            for a in g.valid_actions_no_rep().iter() {
+                let c = g.take_action(a);
+                acc = mix64(acc ^ c.transposition_hash());
+            }
+            acc
+        }
         0 => fp_str(&actions_text(&g.valid_actions())),
         1 => fp_str(&actions_text(&g.valid_actions_no_rep())),
         2 => g.transposition_hash(),
@@ -273,9 +282,9 @@ fn ask(g: &GameState, q: usize) -> u64 {
 }
 
 fn observe_rotated(g: &GameState, t: &mut Transcript, rot: usize) {
-    let mut slots = [0u64; 7];
-    for k in 0..7 {
-        let q = (k + rot) % 7;
+    let mut slots = [0u64; 8];
+    for k in 0..8 {
+        let q = (k + rot) % 8;
         slots[q] = ask(g, q);
     }
     for v in slots {
@@ -287,8 +296,8 @@ fn observe_rotated(g: &GameState, t: &mut Transcript, rot: usize) {
 /// time, every thread starting at a different query - readers of one transposition-table entry.
 fn same_object_run(state: &Arc<GameState>, threads: usize, reps: usize, first_query: usize, concurrent: bool) -> Vec<(u64, u64)> {
     // the one thing the object is asked before the burst (a table entry has usually been looked at once);
-    // 7 = nothing
-    if first_query < 7 {
+    // 8 = nothing
+    if first_query < 8 {
         let _ = ask(state, first_query);
     }
     let work = move |g: &GameState, rot: usize| {
@@ -299,7 +308,7 @@ fn same_object_run(state: &Arc<GameState>, threads: usize, reps: usize, first_qu
         (t.h, t.items)
     };
     if !concurrent {
-        return (0..threads).map(|i| work(state, [0usize, 3, 1, 5, 4, 2][i % 6])).collect();
+        return (0..threads).map(|i| work(state, [0usize, 7, 3, 1, 7, 5][i % 6])).collect();
     }
     let barrier = Arc::new(Barrier::new(threads));
     let gid = watch::new_group(threads, "same-object scenario");
@@ -310,7 +319,7 @@ fn same_object_run(state: &Arc<GameState>, threads: usize, reps: usize, first_qu
             std::thread::spawn(move || {
                 let _member = watch::enter(gid);
                 barrier.wait();
-                work(&g, [0usize, 3, 1, 5, 4, 2][i % 6])
+                work(&g, [0usize, 7, 3, 1, 7, 5][i % 6])
             })
         })
         .collect();
@@ -835,7 +844,7 @@ fn check_parts(start: &gen::Start, actions: &[Action], progs: &[Prog], aux: u64,
                 }
             }
             for (ti, path) in targets.iter().enumerate() {
-                for first_query in [1usize, 0, 3, 7] {
+                for first_query in [1usize, 0, 3, 8] {
                     let mk_state = |fresh: Arc<GameState>| -> Arc<GameState> {
                         let mut g = build(fresh).unwrap();
                         for a in path.iter() {
